@@ -152,7 +152,7 @@ Proof.
   intros Ht. unfold switch_true_lhs, switch_true_rhs. simpl. rewrite (Ht h).
   revert h. induction cases as [|[c body] r IH]; intros h; [reflexivity|].
   destruct (evalS en c h) as [[[vc|] h1]|]; auto.
-  destruct vc as [| | | |[]| |]; simpl; auto.
+  destruct vc as [| | | |[]| | | |]; simpl; auto.
 Qed.
 
 (* ---- valSwap: not an equivalence ---- *)
@@ -267,3 +267,59 @@ Proof.
   eexists. split; [apply env_of_ok|]. split; [reflexivity|]. vm_compute. discriminate.
 Qed.
 
+
+(* valSwap on two distinct plain variables of one type, with a temporary that is neither: both forms succeed without
+   events and leave every variable except the temporary with the same value (the swapped ones exchanged) *)
+Lemma vars_upd_same en x t v : vars (upd_var en x t v) x t = v.
+Proof. simpl. rewrite String.eqb_refl, ty_eqb_refl. reflexivity. Qed.
+Lemma vars_upd_other en x t v z u : (z <> x \/ u <> t) -> vars (upd_var en x t v) z u = vars en z u.
+Proof.
+  intros H. simpl. destruct (String.eqb z x) eqn:E1; [|reflexivity]. destruct (ty_eqb u t) eqn:E2; [|reflexivity].
+  apply String.eqb_eq in E1. apply ty_eqb_eq in E2. destruct H; contradiction.
+Qed.
+Lemma upd_var_ok en x t v : env_ok en -> vty v = t -> env_ok (upd_var en x t v).
+Proof.
+  intros [Hv Hf] T. split; [|exact Hf]. intros z u. unfold has_type. simpl.
+  destruct (String.eqb z x && ty_eqb u t) eqn:E; [|apply Hv].
+  apply andb_true_iff in E as [_ E]. apply ty_eqb_eq in E. congruence.
+Qed.
+
+Theorem val_swap_vars_preserves_partial en x y t tmp h :
+  env_ok en -> x <> y -> tmp <> x -> tmp <> y ->
+  exists en1 en2,
+    exec en (val_swap_lhs tmp t (LVar x t) (LVar y t)) h = Some (RVal en1, h) /\
+    exec en (val_swap_rhs (LVar x t) (LVar y t)) h = Some (RVal en2, h) /\
+    (forall z u, (z <> tmp \/ u <> t) -> vars en1 z u = vars en2 z u) /\
+    vars en2 x t = vars en y t /\ vars en2 y t = vars en x t.
+Proof.
+  intros Hen Nxy Ntx Nty.
+  set (vx := vars en x t). set (vy := vars en y t).
+  assert (Tx : vty vx = t) by apply Hen. assert (Ty : vty vy = t) by apply Hen.
+  exists (upd_var (upd_var (upd_var en tmp t vy) y t vx) x t vy), (upd_var (upd_var en y t vx) x t vy).
+  split; [|split; [|split; [|split]]].
+  - unfold val_swap_lhs. cbn [exec lval_expr evalS].
+    fold vy. rewrite Ty, ty_eqb_refl.
+    cbn [exec eval_lval evalS].
+    rewrite (vars_upd_other en tmp t vy x t) by (left; congruence). fold vx.
+    cbn [store_loc]. rewrite Tx, ty_eqb_refl.
+    cbn [exec eval_lval evalS].
+    rewrite (vars_upd_other _ y t vx tmp t) by (left; exact Nty). rewrite vars_upd_same.
+    cbn [store_loc]. rewrite Ty, ty_eqb_refl. reflexivity.
+  - unfold val_swap_rhs. cbn [exec eval_lval lval_expr evalS]. fold vx vy.
+    cbn [store_loc]. rewrite Tx, ty_eqb_refl. cbn [store_loc]. rewrite Ty, ty_eqb_refl. reflexivity.
+  - intros z u Hz.
+    destruct (String.eqb z x && ty_eqb u t) eqn:Ex.
+    + apply andb_true_iff in Ex as [E1 E2]. apply String.eqb_eq in E1. apply ty_eqb_eq in E2. subst z u.
+      rewrite !vars_upd_same. reflexivity.
+    + assert (Hx : z <> x \/ u <> t).
+      { apply andb_false_iff in Ex as [E|E]; [left; apply String.eqb_neq; exact E|right; intros ->; rewrite ty_eqb_refl in E; discriminate]. }
+      rewrite !(vars_upd_other _ x t vy z u Hx).
+      destruct (String.eqb z y && ty_eqb u t) eqn:Ey.
+      * apply andb_true_iff in Ey as [E1 E2]. apply String.eqb_eq in E1. apply ty_eqb_eq in E2. subst z u.
+        rewrite !vars_upd_same. reflexivity.
+      * assert (Hy : z <> y \/ u <> t).
+        { apply andb_false_iff in Ey as [E|E]; [left; apply String.eqb_neq; exact E|right; intros ->; rewrite ty_eqb_refl in E; discriminate]. }
+        rewrite !(vars_upd_other _ y t vx z u Hy). apply vars_upd_other. exact Hz.
+  - apply vars_upd_same.
+  - rewrite vars_upd_other by (left; congruence). apply vars_upd_same.
+Qed.
